@@ -273,7 +273,7 @@ func VerifC12IOPaths() {
 	in, out := vf.TempPath("io-in.txt"), vf.TempPath("io-out.yml")
 	verifReset(in, out)
 	defer verifReset(in, out)
-	text := []string{"C[1] D_m7/F[2,1/2]{txt=hi} R[1]\n", "4[1]  ; comment\n2b_m7[3/4]", "C[", ""}[vf.NondetIntRange("text", 0, 3)]
+	text := []string{"C[1] D_m7/F[2,1/2]{txt=hi} R[1]\n", "4[1]  ; comment\n2b_m7[3/4]", "C[", "", "\ufeffC[1] G_7[2]\n"}[vf.NondetIntRange("text", 0, 4)]
 	os.WriteFile(in, []byte(text), 0o644)
 	run := func(args []string, useStdin bool, toFile bool) (string, error) {
 		flags := []string{"--output", ""}
@@ -372,8 +372,16 @@ func VerifC08WriteCmd() {
 	doc := []string{
 		verifDoc("m7"),
 		"- values: [\"1/2\"]\n- chord:\n    degree: \"1\"\n    name: \"9\"\n  values: [\"1\", \"1/3\"]\n  meta:\n    txt: héllo\n- chord:\n    degree: \"4\"\n    name: sus4\n  values: [\"2\"]\n- values: [\"3\"]\n- values: [\"1/4\"]\n",
-	}[vf.NondetIntRange("doc", 0, 1)]
-	total := []uint32{960 + 480 + 1920 + 720, 480 + 960 + 320 + 1920 + 2880 + 240}[map[bool]int{true: 0, false: 1}[doc == verifDoc("m7")]]
+		// settings and texts restated with the same value on later instances (each is an event
+		// of its own at its own instance, whatever the track count), a text right after a rest
+		"- chord: {degree: \"1\", name: \"\"}\n  values: [\"1\"]\n  key: G\n  bpm: 90\n  meta: {lic: la}\n- chord: {degree: \"4\", name: m7}\n  values: [\"1\"]\n  meta: {lic: la}\n- chord: {degree: \"5\", name: \"7\"}\n  values: [\"1/2\"]\n  key: G\n  bpm: 90\n- values: [\"2\"]\n- chord: {degree: \"1\", name: \"\"}\n  values: [\"1\"]\n  meta: {mrk: verse 2, lic: la}\n",
+	}[vf.NondetIntRange("doc", 0, 2)]
+	total := uint32(960 + 960 + 480 + 1920 + 960)
+	if doc == verifDoc("m7") {
+		total = 960 + 480 + 1920 + 720
+	} else if strings.HasPrefix(doc, "- values: [\"1/2\"]") {
+		total = 480 + 960 + 320 + 1920 + 2880 + 240
+	}
 	os.WriteFile(in, []byte(doc), 0o644)
 	n := vf.NondetIntRange("tracks", 1, vf.Param("C08.cmdTracks", 4))
 	write := func(tracks int) *spec.SMFFile {
@@ -783,6 +791,45 @@ func VerifC12InfoOutputs() {
 		got, gerr := verifCapture("info-got.txt", func() error { return cmd.RunE(cmd, nil) })
 		vf.NondetMapOrder(false)
 		vf.Assert("output-independent-of-map-order", gerr == nil && got == ref)
+	}
+	vf.Reach("end")
+}
+
+
+// VerifC16ChordFiles: a user dictionary split over several --chord files is the same dictionary
+// in whichever order the files are given: a chord may extend one that is defined in a later
+// file, and resolves to the parent's notes followed by its own.
+func VerifC16ChordFiles() {
+	upper, base := vf.TempPath("chords-upper.yml"), vf.TempPath("chords-base.yml")
+	verifReset(upper, base)
+	defer verifReset(upper, base)
+	os.WriteFile(upper, []byte("- name: ThirteenFlatNine\n  meta:\n    display: 13b9\n  extends: SevenFlatNine\n  attributes:\n    - Major13\n"), 0o644)
+	os.WriteFile(base, []byte("- name: SevenFlatNine\n  meta:\n    display: 7b9\n  extends: DominantSeventh\n  attributes:\n    - Minor9\n"), 0o644)
+	var flags []string
+	switch vf.NondetIntRange("order", 0, 3) {
+	case 0:
+		flags = []string{"--chord", base, "--chord", upper}
+	case 1:
+		flags = []string{"--chord", upper, "--chord", base}
+	case 2:
+		flags = []string{"--chord", upper + "," + base}
+	case 3:
+		flags = []string{"--chord", base + "," + upper}
+	}
+	vf.Assert("flags-parse", infoCmdChordDescribe.ParseFlags(flags) == nil)
+	m, err := newChordMap(infoCmdChordDescribe)
+	vf.Assert("consistent-dictionary-is-accepted-in-any-file-order", err == nil && m != nil)
+	if err != nil || m == nil {
+		return
+	}
+	for _, key := range []string{"13b9", "ThirteenFlatNine"} {
+		attrs, ok := m.GetChordAttributes(key)
+		want := []string{"Perfect1", "Major3", "Perfect5", "Minor7", "Minor9", "Major13"}
+		same := ok && len(attrs) == len(want)
+		for i := 0; same && i < len(want); i++ {
+			same = attrs[i].Name == want[i]
+		}
+		vf.Assert("chord-inherits-across-files", same)
 	}
 	vf.Reach("end")
 }
